@@ -1,8 +1,10 @@
 SPECIFICATION GenSpec
 CONSTANTS
   Reqs <- Reqs2
+  Parts <- P11
+  RegAfter <- RegFirst
   Dups = {3}
+  LookupAtomic = TRUE
   FailIdx = {}
-  RegisterFirst = TRUE
 INVARIANTS NoSpurious MatchOnce NoLoss Emit
 CHECK_DEADLOCK FALSE
